@@ -138,6 +138,23 @@ func (r *ruleState) scheduleRules(tr *TxRec, req *ReqRec, pre, post *tables.Tabl
 			s.violate("T13.promise_fields", P("C10", "C20"), "schedule", "scheduled promise does not carry the schedule's configuration", fmt.Sprintf("%s for occurrence %d of %s", p, ok, a))
 		}
 	}
+	// the converse: an occurrence's promise is created in the step that advances the schedule
+	if tr.Name == "SchedulePromises" {
+		for _, pid := range tables.SortedKeys(post.Promises) {
+			if pre.Promises[pid] != nil {
+				continue
+			}
+			p := post.Promises[pid]
+			sid, _ := tagOf(p, "resonate:schedule")
+			a, b := pre.Schedules[sid], post.Schedules[sid]
+			if sid == "" || a == nil || b == nil {
+				continue
+			}
+			if a.Eq(b) && p.Timeout == tables.AddSat(a.NextRunTime, a.PromiseTimeout) {
+				s.violate("T13.promise_without_advance", P("C10", "C06"), "schedule", "occurrence's promise created without advancing the schedule in the same step", fmt.Sprintf("promise %q for occurrence %d of %s", pid, a.NextRunTime, a))
+			}
+		}
+	}
 	for _, id := range tables.SortedKeys(post.Schedules) {
 		if pre.Schedules[id] != nil {
 			continue
